@@ -41,6 +41,18 @@ CLAIMS = {
         note=TB + "WF is the formalisation of the property's sentence; see Model/Tracer.lean.",
         technique="Lean 4 invariant proofs + executable recogniser applied to real paths",
         ref="§3 C11"),
+    "C12": dict(
+        text="Theorems about Model/Filled.lean for grids of any size and index lists of any length: positions = sites of "
+             "the underlying grid at non-vacant index pairs; vacate/fill are cumulative set operations keeping the underlying "
+             "grid; get_view re-indexes the vacancy pattern through the index lists (also repeated/unsorted ones); repeat "
+             "tiles the pattern (site (a,b) vacant iff (a mod nx, b mod ny) was); shift/scale keep the pattern; == is an "
+             "equivalence that holds iff underlying grid and vacancy set agree, and implies equal hash keys. Tie: operation "
+             "chains (exhaustive small scope + random) through the Python methods, through generated @move kernels and "
+             "through the model; the denotational oracle is evaluated on the real objects step by step.",
+        note=TB + "Position arithmetic of the underlying Grid/SubGrid (bloqade-geometry) is modelled and compared, not proved; "
+                  "views with non-ascending index lists are only checked for vacancy re-indexing (geometry finding F10).",
+        technique="Lean 4 theorems (set/index level) + exhaustive small-scope and random differential correspondence",
+        ref="§3 C12"),
     "C15": dict(
         text="Theorem C15_fresh_equiv: for every history of run_trace calls (successes and failures mixed, any initial "
              "instance state) each call returns what a fresh instance returns; proved over reset/copy flags regenerated "
